@@ -727,6 +727,9 @@ void run_case(Choices &c, Ctx &ctx)
 	g_log.clear();
 	{
 		W w(ctx, c);
+		// JSON null is the NULL pointer: acquiring / releasing it is a no-op (json_object.h)
+		if (json_object_get(nullptr) != nullptr || json_object_put(nullptr) != 0)
+			ctx.fail("null-node", "json_object_get(NULL)/json_object_put(NULL) are not no-ops");
 		size_t nops = 4 + c.len(60);
 		for (size_t i = 0; i < nops; i++)
 		{
